@@ -24,13 +24,13 @@ def _lib():
     return _LIB
 
 
-def inspect(data, lens=False, freq=False, want_out=True):
+def inspect(data, lens=False, freq=False, want_out=True, lenient_crc=False):
     """Returns (info dict, output bytes or None).  In-process call into libbzkit.so."""
     import ctypes
     L = _lib()
     outp = ctypes.c_void_p()
     outl = ctypes.c_size_t()
-    js = L.bzk_inspect_json(bytes(data), len(data), int(lens), int(freq),
+    js = L.bzk_inspect_json(bytes(data), len(data), int(lens), int(freq) | (2 if lenient_crc else 0),
                             ctypes.byref(outp) if want_out else None, ctypes.byref(outl))
     try:
         info = json.loads(ctypes.string_at(js))
@@ -85,3 +85,18 @@ def libbz2_verdict(data):
             return "invalid", b"".join(out)
         out.append(o)
         pos = n - len(d.unused_data)
+
+
+def reseal(data):
+    """Rewrite every stored block CRC and stream CRC of `data` so that they match what the (otherwise
+    unchanged) stream decodes to.  Returns new bytes, or None when the stream does not parse to the end."""
+    import corpus
+    info, _ = inspect(data, want_out=False, lenient_crc=True)
+    if not info["valid"]:
+        return None
+    out = data
+    for s in info["streams"]:
+        for b in s["blocks"]:
+            out = corpus.set_bits(out, b["bit_crc"], 32, b["crc_calc"])
+        out = corpus.set_bits(out, s["bit_crc"], 32, s["crc_calc"])
+    return out
